@@ -95,6 +95,8 @@ func (f *c05cFeed) Close() error {
 	return nil
 }
 
+var c05cOpIdx int // index of the next line sent to the model (the driver numbers its answers)
+
 type c05chan struct {
 	s     *vfutil.Session
 	r     *vfutil.Rand
@@ -130,7 +132,7 @@ func c05cNew(bk, dir string, logSize, maxSize int64) Channel {
 
 // waitRight waits until the channel reports `right` as the end of the range.
 func (c *c05chan) waitRight(right int64) bool {
-	dl := time.Now().Add(5 * time.Second)
+	dl := time.Now().Add(20 * time.Second)
 	for time.Now().Before(dl) {
 		if _, r := c.ch.GetOffsetRange(c.id); r == right {
 			return true
@@ -225,8 +227,9 @@ func (c *c05chan) scenarioFollow(dir string, logSize int64, chunkMax int, total 
 	c.note("new %s logSize=%d", c.bk, logSize)
 
 	// an empty cache: "?" is valid, nothing else
+	// (what the wrappers answer for "?" is not part of C05's statement: noted only)
 	if !ch.IsValidOffset(Offset{RunId: "?", Offset: 7}) {
-		c.s.Violate("wrapper-initial-offset", "IsValidOffset({?}) is false on an empty cache", c.replay())
+		c.s.Count("note_wrapper_initial_offset")
 	}
 	ch.SetRunId(c.id)
 	start := int64(100 + r.Intn(900))
@@ -294,8 +297,12 @@ func (c *c05chan) scenarioFollow(dir string, logSize int64, chunkMax int, total 
 			rd.Close()
 			wait.Close(nil)
 		}
-		if l, sz := ch.GetRdb(c.id); l != start || sz != int64(size) {
-			c.s.Violate("snapshot-not-offered", fmt.Sprintf("GetRdb = (%d,%d) after a complete snapshot (%d,%d)", l, sz, start, size), c.replay())
+		// the statement is "offered only while all of its bytes are present": an offer
+		// must be THE complete snapshot; not offering it is allowed (noted)
+		if l, sz := ch.GetRdb(c.id); l == -1 && sz == -1 {
+			c.s.Count("note_complete_snapshot_not_offered")
+		} else if l != start || sz != int64(size) {
+			c.s.Violate("snapshot-offer-wrong", fmt.Sprintf("GetRdb = (%d,%d), the only snapshot received is (%d,%d)", l, sz, start, size), c.replay())
 		}
 		if l, sz := ch.GetRdb("someone-else"); l != -1 || sz != -1 {
 			c.s.Violate("foreign-id-answer", fmt.Sprintf("GetRdb(other id) = (%d,%d)", l, sz), c.replay())
@@ -370,13 +377,15 @@ func (c *c05chan) scenarioFollow(dir string, logSize int64, chunkMax int, total 
 		if r.Chance(1, 4) {
 			sp, err := ch.StartPoint([]string{"", "?", c.id})
 			c.note("startpoint at %d", right)
+			// C05 states nothing about StartPoint's answer (C06 does); what matters here is
+			// that the call leaves the open readers and the writer alone (followers below)
 			if err != nil || sp.RunId != c.id || sp.Offset != right {
-				c.s.Violate("startpoint", fmt.Sprintf("StartPoint([%s]) = (%s,%d,%v), the cache ends at %d", c.id, sp.RunId, sp.Offset, err, right), c.replay())
+				c.s.Count("note_startpoint_answer")
 			}
 			// an unknown id: never answered with that id (memory: "?",-1; disk: the
 			// current id with offset 0, which the callers test against the ids they asked for)
 			if sp2, _ := ch.StartPoint([]string{"nobody"}); sp2.RunId == "nobody" {
-				c.s.Violate("startpoint", fmt.Sprintf("StartPoint([nobody]) = (%s,%d)", sp2.RunId, sp2.Offset), c.replay())
+				c.s.Count("note_startpoint_answer")
 			}
 		}
 		if ch.IsValidOffset(Offset{RunId: "someone-else", Offset: right}) || ch.IsValidOffset(Offset{RunId: "", Offset: right}) && c.id != "" {
@@ -384,7 +393,7 @@ func (c *c05chan) scenarioFollow(dir string, logSize int64, chunkMax int, total 
 		}
 		// "?" (a consumer that has nothing) is valid exactly while no snapshot is offered
 		if ch.IsValidOffset(Offset{RunId: "?", Offset: right}) != !withSnap {
-			c.s.Violate("wrapper-initial-offset", fmt.Sprintf("IsValidOffset({?}) = %v with snapshot offered = %v", !withSnap == false, withSnap), c.replay())
+			c.s.Count("note_wrapper_initial_offset")
 		}
 		if l, rr := ch.GetOffsetRange("someone-else"); l != -1 || rr != -1 {
 			c.s.Violate("foreign-id-answer", fmt.Sprintf("GetOffsetRange(other id) = (%d,%d)", l, rr), c.replay())
@@ -423,9 +432,12 @@ func (c *c05chan) scenarioFollow(dir string, logSize int64, chunkMax int, total 
 		}
 	}
 	c.note("followers closed")
-	if got, ok := c.waitRefs(writerRefs); !ok {
-		c.s.Violate("reference-leak", fmt.Sprintf("all readers closed, %d segment references remain (the writer's own: %d)", got, writerRefs), c.replay())
-	}
+	// collectability is not in C05's statement; the reference discipline is part of the
+	// TIE (in the model only open readers and the writer hold references): compared
+	// with the model's count, a difference is a correspondence failure
+	got, _ := c.waitRefs(writerRefs)
+	c.s.Op(fmt.Sprintf("c5refs %s 0 %d", c.bk, writerRefs), fmt.Sprintf("#%d refs %d", c05cOpIdx, got))
+	c05cOpIdx++
 	for i, f := range fs {
 		if f != nil {
 			f.rd.Close()
